@@ -58,6 +58,9 @@ ASSUMPTIONS = [
     "a transform([...]) call may be issued twice with the same Transformation objects: each use is the affine map the "
     "list describes (default origins from the entity as it is then), and the objects still hold exactly what they were "
     "given afterwards",
+    "curves (as entities and inside OnCurve/Spline/PolyLine edge data of any entity) are evaluated before the "
+    "transformation in 6 of 7 cases (get_point, discretize, length, get_closest_param or all of them), as a caller may "
+    "have done",
     "block numbering after mirror: kept or bottom/top swapped are both accepted (handedness of the result is C11's "
     "business); return values of the methods are not used",
     "a default origin in the middle of a transform([...]) list is the image of the center read before the call under "
@@ -101,7 +104,7 @@ def guard(g0: x.Geo, s: float, ctx: Ctx) -> bool:
 
 
 def mesh_case(ent: x.Ent, tkind: str):
-    return st.fixed_dictionaries({"ent": ent.strategy, "tf": x.tf_list(tkind, ent.default_origin_ok)})
+    return st.fixed_dictionaries({"ent": ent.strategy, "tf": x.tf_list(tkind, ent.default_origin_ok), "pre": st.sampled_from(x.PRE)})
 
 
 BYPASS = "transform-list-bypasses-own-overrides"
@@ -127,6 +130,9 @@ def make_check_tf(ent: x.Ent, tkind: str):
         shared = x.shared_corners(add0)
         g0 = x.geo_of(add0, facts, "base")
         e1 = ent.build(p)
+        # the curves the entity holds may have been evaluated already (evaluation may be cached by the library)
+        if x.touch_curves(e1, case.get("pre", "all")):
+            ctx.label("curves-evaluated-before=" + case.get("pre", "all"))
         tf, capped = x.cap_scale(tf, g0)
         if capped:
             ctx.label("ratio=capped")
@@ -230,6 +236,7 @@ def make_check_copy(ent: x.Ent):
                                     cause="id-based-geometry-name" if only_spheres else None, undefined=new[:3], stage="write"))
 
         # independence: transform the copy, look at the original again; the transformed copy obeys the law
+        x.touch_curves(cp, case.get("pre", "all"))
         tf, capped = x.cap_scale(tf, g0)
         if capped:
             ctx.label("ratio=capped")
@@ -297,7 +304,8 @@ def check_point(tkind):
 
 @st.composite
 def curve_case(draw, which, tkind):
-    return {"frame": draw(x.frames()), "spec": draw(x.curve_spec(which)), "tf": draw(x.tf_list(tkind, False))}
+    return {"frame": draw(x.frames()), "spec": draw(x.curve_spec(which)), "tf": draw(x.tf_list(tkind, False)),
+            "pre": draw(st.sampled_from(x.PRE))}
 
 
 def _curve_geo(curve, which):
@@ -342,6 +350,9 @@ def check_curve(which, tkind):
                     raise Violation("copy-differs", f"copy differs in {k}", **facts)
         else:
             target = x.make_curve(case["spec"], a, b)
+        # a curve that was evaluated before it is transformed (6 of 7 cases; a copy carries what its source cached)
+        pre = case.get("pre", "all")
+        x.touch_curve(target, pre)
         ap = x.apply_tf(target, case["tf"], facts)
         facts = tf_facts(facts, ap)
         try:
@@ -380,7 +391,7 @@ def check_curve(which, tkind):
             g0b = _curve_geo(c0, which)
             if any(not np.array_equal(g0b[k], g0[k]) for k in ("pts", "disc")):
                 raise Violation("original-changed-with-copy", "transforming the copy changed the original curve", **facts)
-        ctx.label(*x.tf_labels(case["tf"]))
+        ctx.label(*x.tf_labels(case["tf"]), "evaluated-before=" + pre)
         ctx.nt(x.tf_nontrivial(case["tf"]))
 
     return check
